@@ -79,6 +79,23 @@ func oracle(c Case) *ev.Verdict {
 		return ev.V(fmt.Sprintf("verdict:rejects:code-%d", cerr.Code), "enum rule %q is rejected (%s) although it is a bracketed list of distinct scalars", c.Text, cerr)
 	}
 	if !ref.Valid {
+		// a refused rule stays refused: asked again, asked for its values, registered in a schema
+		var again, valErr, astErr, addErr *sut.ErrInfo
+		var vals []enum.Value
+		if esc := sut.Trap("Enum (refused rule, asked again)", func() {
+			again = sut.Describe(e.Check())
+			var err error
+			vals, err = e.Values()
+			valErr = sut.Describe(err)
+			_, err = e.GetAST()
+			astErr = sut.Describe(err)
+			addErr = sut.Describe(jschema.New("root", "1 // {enum: @e}").AddRule("@e", e))
+		}); esc != nil {
+			return ev.V("panic:refused-rule:"+esc.Frame, "operations on the refused enum rule %q panicked: %s", c.Text, esc.Value)
+		}
+		if again == nil || valErr == nil || astErr == nil || addErr == nil {
+			return ev.V("refused-rule:accepted-later", "enum rule %q: Check() = %s; asked again: Check() = %v, Values() = %d values, %v, GetAST() error %v, AddRule error %v", c.Text, cerr, again, len(vals), valErr, astErr, addErr)
+		}
 		return nil
 	}
 	if esc := sut.Trap("Enum", func() {
